@@ -2,7 +2,11 @@ package main
 
 // Read/write footprints over pre-existing memory (C18).
 
-import "fmt"
+import (
+	"fmt"
+
+	"golang.org/x/tools/go/ssa"
+)
 
 type cellKey struct {
 	obj  int
@@ -53,4 +57,60 @@ func (e *Exec) curSite() string {
 		return e.siteOf(e.frame)
 	}
 	return "?"
+}
+
+func init() {
+	// Footprint(label, f): run f recording which pre-existing memory cells it reads and writes.
+	intrinsics["Footprint"] = func(e *Exec, fr *Frame, fn *ssa.Function, a []Value) Value {
+		label := e.tagOf(a[0])
+		e.epoch++
+		fp := newFootprint(label, e.epoch)
+		prev := e.curFoot
+		e.curFoot = fp
+		e.frame = fr
+		e.callFuncV(fr, nil, a[1].(FuncV), nil)
+		e.curFoot = prev
+		e.footprints[label] = fp
+		e.epoch++
+		return nil
+	}
+	// ConflictFree(a, b): no cell written by one call is read or written by the other.
+	intrinsics["ConflictFree"] = func(e *Exec, fr *Frame, fn *ssa.Function, a []Value) Value {
+		fa, fb := e.footprints[e.tagOf(a[0])], e.footprints[e.tagOf(a[1])]
+		if fa == nil || fb == nil {
+			e.unsupported("ConflictFree on unknown footprints")
+		}
+		check := func(w, o *footprint) (string, bool) {
+			for k, site := range w.writes {
+				if _, ok := o.writes[k]; ok {
+					return "write/write on " + site, true
+				}
+				if _, ok := o.reads[k]; ok {
+					return "write/read on " + site, true
+				}
+			}
+			return "", false
+		}
+		if msg, bad := check(fa, fb); bad {
+			e.pathAux["conflict"] = msg
+			return e.tf.Bool(false)
+		}
+		if msg, bad := check(fb, fa); bad {
+			e.pathAux["conflict"] = msg
+			return e.tf.Bool(false)
+		}
+		return e.tf.Bool(true)
+	}
+	intrinsics["WritesNothingShared"] = func(e *Exec, fr *Frame, fn *ssa.Function, a []Value) Value {
+		f := e.footprints[e.tagOf(a[0])]
+		if f == nil {
+			e.unsupported("unknown footprint")
+		}
+		for _, site := range f.writes {
+			e.pathAux["conflict"] = "write to shared " + site
+			return e.tf.Bool(false)
+		}
+		return e.tf.Bool(true)
+	}
+	intrinsics["Repeat"] = func(e *Exec, fr *Frame, fn *ssa.Function, a []Value) Value { return e.tf.Int(1) }
 }
